@@ -96,6 +96,8 @@ def obj_front_end(rep, model):
                               'lowered by r again, not by 2r (shared with C14 REDUCE / RECOMPUTE / EFF-SELF)')
     before = len(rep.instances)
     c14.reduce_and_recompute(rep, model)
+    c14.group_recompute(rep, model)            # the group front end: each member with its own thresholds lowered by r
+    rep.rules.pop('GROUP-RECOMPUTE', None)
     for i in rep.instances[before:]:
         i['rule'] = 'OBJ-RECOMPUTE'
         if i.get('key'):
